@@ -77,6 +77,20 @@ CHECKS = {
         note="Differential against the real code's own unfiltered run; the sold-% column is per-window by definition and not judged.",
         design="3/C10",
     ),
+    "C11": dict(
+        category="exploration",
+        technique="bounded-exhaustive enumeration of column layouts, table orders and blank-row placements on the real parse_ods (in-memory and saved .ods), field-by-field reference rendering in exact rationals",
+        text="Per table every rotation, every transposition, the reversal, every proper subset of optional columns mapped (in place and compacted) and an unmapped column at every gap; all 6 table orders x leading / between / trailing blank rows, table subsets, a saved-and-reopened file for every rotation, and pairs of layout deviations across two tables (thorough: rotation+transposition inside a table, table order x rotation; 65 000 layouts). Every case parses a typed palette (every IN / OUT type, every optional-cell pattern including crypto fee with exchange-supplied fiat totals, transfers with / without fee and spot price, self-transfer; every numeric cell a different 11-decimal value, zones differ, sheet order is not time order) and each field of each parsed transaction is compared with the generating row; crypto-fee acquisitions must split into acquisition + artificial FEE disposal with a negative id.",
+        note="Numeric cells carry at most 15 significant digits (what a double holds exactly); derived fiat products are compared at 1e-15 relative.",
+        design="3/C11",
+    ),
+    "C12": dict(
+        category="fault_enumeration",
+        technique="fault enumeration at every position: all row-kind sequences and all single/pair edits of well-formed sheets against a reference acceptor; every field / config / command-line fault class on parse_ods, Configuration and the real CLI",
+        text="(a1) every sequence of the 9 row kinds up to length 5 (thorough 7) and (a2) every single edit of 23 well-formed sheets plus every pair of edits of 4 (thorough: all 23) are parsed by the real parse_ods and compared with a reference acceptor of the documented grammar: broken structure must raise, well-formed sheets must return exactly their rows; (b) every documented field fault class at every row x field of a 3-asset base input must raise; (c) every config fault must raise in Configuration; (d,e) one instance of every fault class per asset and table (thorough: every single case), structure faults in the second asset, every config and command-line fault (-m vs [accounting_methods], method not accepted by the country, from > to, malformed dates, unknown language, missing / wrong-suffix / corrupt files, overdraft without -n) through the real command line: exit status != 0, an error message, no report file.",
+        note="Sequences the documentation does not classify (repeated empty table, table without header line, wrong-shaped row in header position) are counted and not judged. The base input is first run unmodified and must succeed, so rejections are not vacuous.",
+        design="3/C12",
+    ),
 }
 
 NOT_YET = {
